@@ -128,7 +128,7 @@ func c05Families(d int) []explore.Family {
 }
 
 func C05(tier string) int {
-	d, budget := 4, 170*time.Second
+	d, budget := 4, 300*time.Second
 	if tier == "thorough" {
 		d, budget = 6, 25*time.Minute
 	}
